@@ -297,6 +297,9 @@ Definition gen_agrees (ms : list snet) (g : impl_gen) : bool :=
   match nth_error ms (g_handle g) with
   | None => false
   | Some m =>
+      (* two parents sharing one positional index (only reachable through the deprecated explicit
+         add_edge) make the argument order depend on networkx iteration order: outside the model *)
+      if negb (forallb (fun ns : name * sstate => nodup_params (map snd (preds (s_edges m) (fst ns)))) (s_nodes m)) then true else
       match generate m (map fst (s_nodes m)) [] with
       | Ok (out, _) => negb (g_raised g) && outs_eqb out (g_outputs g)
       | Err _ => g_raised g
